@@ -33,7 +33,7 @@ REQUIRED = {"rerun.lists_exactly_unsuccessful": {"quick": 500, "thorough": 25000
             "rerun.lists_what_the_reference_model_says_failed": {"quick": 150, "thorough": 8000},
             "rerun.scenario_whose_hook_raised_is_listed": {"quick": 40, "thorough": 2000}}
 REQUIRED_SEEN = {"listed_status": ["failed", "error", "hook_error"], "feature_order": ["directory", "explicit_reversed"],
-                 "fail_fast_environment": ["feature", "rule"], "nested_sub_step": ["undefined", "fail", "error"], "second_run_environment": ["autoretry_recipe", "plain"], "first_run_selection": ["name_pattern_matching_rows_only"], "program_shape": ["stepless_scenarios"], "rerun_loop_shape": ["input_only", "same_file_in_and_out", "same_file_in_and_out_by_config"], "raising_hook_of_listed_scenario": ["before_tag", "after_tag", "before_scenario", "before_step"]}
+                 "fail_fast_environment": ["feature", "rule"], "nested_sub_step": ["undefined", "fail", "error"], "second_run_environment": ["autoretry_recipe", "plain"], "first_run_selection": ["name_pattern_matching_rows_only"], "program_shape": ["stepless_scenarios"], "stepless_scenario_with_raising_hook_under_fail_fast": ["before_scenario", "after_scenario", "before_tag", "after_tag"], "rerun_loop_shape": ["input_only", "same_file_in_and_out", "same_file_in_and_out_by_config"], "raising_hook_of_listed_scenario": ["before_tag", "after_tag", "before_scenario", "before_step"]}
 NSHARDS = {"quick": 16, "thorough": 16}
 
 
@@ -389,6 +389,28 @@ def run(spec, mon):
             victim["file"] = "issue#%d.feature" % (12 + i)
             mon.seen("feature_file_name_class", "contains_hash")
         one_history(lab, mon, rng, case, stale=(i % 3 == 0), sample=(i == 2 and spec["shard"] == 0))
+    # ---- directed: a hook of a STEP-LESS scenario raises, a later scenario of the feature fails, and the environment's
+    #      fail-fast after_scenario hook skips the rest of the feature (rule): the first one stays listed
+    for i in range(12 if tier == "quick" else 300):
+        gen = {"outcomes": outs, "max_features": 2, "p_nonpass": 0.6, "p_stepless": 0.5, "p_background": 0.0,
+               "p_rule_background": 0.0, "p_outline": 0.1, "max_items": 4, "max_rules": 1, "p_tag": 0.6}
+        case = RB.gen_case(rng, gen=gen, p_stop=0.0, p_dry=0.0, p_noskipped=0.3, tags=False)
+        cands = []
+        for f in case["program"]["features"]:
+            for it in f["items"]:
+                for sc in (it["items"] if it["kind"] == "rule" else [it]):
+                    if sc["kind"] == "scenario" and not sc["steps"]:
+                        cands.append(sc)
+        if not cands:
+            continue
+        sc = rng.choice(cands)
+        hooks = ["before_scenario", "after_scenario"] + (["before_tag", "after_tag"] if sc["tags"] else [])
+        h = rng.choice(hooks)
+        tag = rng.choice(sc["tags"]) if h.endswith("_tag") else None
+        case = dict(case, hook_fault={"match": [h, None if tag else sc["name"], tag], "exc": rng.choice(["Exception", "AssertionError"])},
+                    fail_fast=rng.choice(["feature", "feature", "rule"]))
+        mon.seen("stepless_scenario_with_raising_hook_under_fail_fast", h)
+        one_history(lab, mon, rng, case, stale=False)
     for i in range(2 if tier == "quick" else 25):
         gen = {"outcomes": outs, "max_features": 2, "p_nonpass": 0.5, "p_stepless": 0.0}
         case = RB.gen_case(rng, gen=gen, p_stop=0.0, p_dry=0.0, tags=False)
